@@ -532,3 +532,73 @@ func dnfCond(cond ast.Expr, taken bool) [][]condAtom {
 	}
 	return [][]condAtom{{{cond, taken}}}
 }
+
+// ctxAtom: an atom together with the function whose type information resolves it (a predicate helper's atoms
+// live in the helper).
+type ctxAtom struct {
+	condAtom
+	In *Fn
+}
+
+// expandPredicates: the alternatives of a condition with calls of first-party predicate helpers
+// (`func hasLinks(e) bool { return len(e.GetNext()) > 0 || len(e.GetRefs()) > 0 }`, a body that is one return of
+// a boolean expression) replaced by the alternatives of the helper's expression, two levels deep.
+func expandPredicates(p *Prog, fn *Fn, alts [][]condAtom) [][]ctxAtom {
+	var expandAtom func(a condAtom, in *Fn, depth int) [][]ctxAtom
+	expandAtom = func(a condAtom, in *Fn, depth int) [][]ctxAtom {
+		e, truth := ast.Unparen(a.E), a.Truth
+		for {
+			u, ok := e.(*ast.UnaryExpr)
+			if !ok || u.Op != token.NOT {
+				break
+			}
+			e, truth = ast.Unparen(u.X), !truth
+		}
+		if call, ok := e.(*ast.CallExpr); ok && depth < 2 {
+			if cf := p.Callee(in, call); cf != nil && p.firstParty(cf.Pkg()) {
+				if h := p.ByObj[cf]; h != nil && h.Body != nil && len(h.Body.List) == 1 {
+					if ret, ok := h.Body.List[0].(*ast.ReturnStmt); ok && len(ret.Results) == 1 && isBoolType(p.TypeOf(h, ret.Results[0])) {
+						var out [][]ctxAtom
+						for _, alt := range dnfCond(ret.Results[0], truth) {
+							parts := [][]ctxAtom{{}}
+							for _, b := range alt {
+								sub := expandAtom(b, h, depth+1)
+								var nx [][]ctxAtom
+								for _, pre := range parts {
+									for _, sfx := range sub {
+										nx = append(nx, append(append([]ctxAtom{}, pre...), sfx...))
+									}
+								}
+								parts = nx
+							}
+							out = append(out, parts...)
+						}
+						if len(out) > 0 && len(out) <= 16 {
+							return out
+						}
+					}
+				}
+			}
+		}
+		return [][]ctxAtom{{{a, in}}}
+	}
+	var out [][]ctxAtom
+	for _, alt := range alts {
+		parts := [][]ctxAtom{{}}
+		for _, a := range alt {
+			sub := expandAtom(a, fn, 0)
+			var nx [][]ctxAtom
+			for _, pre := range parts {
+				for _, sfx := range sub {
+					nx = append(nx, append(append([]ctxAtom{}, pre...), sfx...))
+				}
+			}
+			parts = nx
+		}
+		out = append(out, parts...)
+	}
+	if len(out) > 32 {
+		return [][]ctxAtom{{}}
+	}
+	return out
+}
